@@ -260,6 +260,9 @@ func (k *Kernel) Eventfd(initval uint, flags int) (int, syscall.Errno) {
 	if e := k.w.inject(CkEventfd); e != 0 {
 		return -1, e
 	}
+	if flags&^(syscall.O_NONBLOCK|syscall.O_CLOEXEC|1) != 0 { // EFD_NONBLOCK | EFD_CLOEXEC | EFD_SEMAPHORE
+		return -1, syscall.EINVAL
+	}
 	f, e := k.alloc(fkEventfd)
 	if e != 0 {
 		return -1, e
